@@ -68,11 +68,26 @@ ASSUMPTIONS = [
 ]
 WATCHDOG_S = 5.0
 BOUNDS = {
-    'quick': {'token_deviations': 1, 'char_deviations': 1, 'faults': 1, 'pair_distance': 0,
-              'status_codes': '1..28', 'watchdog_s': WATCHDOG_S},
-    'thorough': {'token_deviations': 2, 'char_deviations': 1, 'faults': 2, 'pair_distance': 3,
-                 'status_codes': '1..28', 'deviation_x_fault': 'drop/dup/swap x every call x 9 codes',
-                 'watchdog_s': WATCHDOG_S},
+    'quick': {
+        'templates': 12,
+        'token_deviations': 1, 'token_ops': 'drop, duplicate, swap with next, replace by / insert '
+                                            'before / append each token of the alphabet',
+        'token_alphabet': 71, 'char_deviations': 1, 'char_alphabet': 12,
+        'initializer_contexts': 'every literal kind (35) x every data type (14) x 10 contexts + '
+                                'references, array sizes, qualifier values',
+        'pragma_cases': 'names (8) x parameters (38) x string/file entry x with/without trailing unit; '
+                        'namespace arguments (11) x templates x 2 seams; include structures',
+        'faults': 1, 'fault_positions': 'every repository call of every template, seams mofwbem and direct',
+        'status_codes': '1..28 plus 0, 29 and 8 other pywbem.Error classes',
+        'mock_seam': 'token deviations with the 16-token alphabet, initializers, pragma cases',
+        'watchdog_s': WATCHDOG_S},
+    'thorough': {
+        'adds': 'token pairs at distance <= 3 (ops drop/dup/swap + replace/insert of 8 tokens); '
+                'deviation x fault (drop/dup/swap of every token x every call x 9 status codes, seam '
+                'direct); two faults (every call pair x 9 x 9 status codes, seam direct)',
+        'token_deviations': 2, 'pair_distance': 3, 'pair_alphabet': 8, 'faults': 2,
+        'distinguished_status_codes': [1, 2, 3, 4, 6, 7, 10, 11, 28],
+        'watchdog_s': WATCHDOG_S},
 }
 EXPLANATION = ('every case is compiled by the unmodified pywbem MOF compiler; the oracle is the '
                'exception-type / position / hygiene predicate of the property statement')
@@ -925,8 +940,8 @@ def case_key(case):
 
 
 def execute(case):
-    """Run one case. -> list of (outcome, what, where, expected, observed), first = the compile
-    itself, optional second = hygiene."""
+    """Run one case. -> ([(outcome, what, where, expected, observed, check)], repository calls);
+    first result = the compile itself, optional second = hygiene."""
     w = worker()
     sync_files(case.get('files') or {})
     seam = case['seam']
